@@ -403,6 +403,7 @@ func runC05(c *Ctx) {
 		}
 		s.flush()
 	})
+	c.Require("ties:mul", "ties:div", "rounded:split", "threshold_verdicts")
 }
 
 func randMag(rng *rand.Rand, maxBits int) int64 {
